@@ -92,12 +92,32 @@ def _nearest(a):
     return 'nearest_m %s %s' % (lst(q, a[0]), q(a[1]))
 
 
-OPS = {'nkeep': _nkeep, 'rebin': _rebin, 'interp_clamp': _interp_clamp, 'mono': _mono, 'filter_table': _filter_table, 'rank': _rank,
+def _get_av(a):
+    return 'map (fun t => qz (get_av_m %s %s t)) %s' % (lst(pt, a[0]), q(a[1]), lst(q, a[2]))
+
+
+def _normalize(a):
+    return 'map (fun p => qz (snd p)) (normalize_m %s)' % lst(pt, a[0])
+
+
+def _conv(a):
+    return 'qz (conv_m %s %s)' % (lst(q, a[0]), lst(q, a[1]))
+
+
+def _fmt_f(a):
+    return 'fmt_f %s %s' % (nat(a[0]), q(a[1]))
+
+
+def _gridlog(a):
+    return 'map qz (gridlog_m %s %s %s)' % (q(a[0]), q(a[1]), nat(a[2]))
+
+
+OPS = {'get_av': _get_av, 'normalize': _normalize, 'conv': _conv, 'fmt_f': _fmt_f, 'gridlog': _gridlog, 'nkeep': _nkeep, 'rebin': _rebin, 'interp_clamp': _interp_clamp, 'mono': _mono, 'filter_table': _filter_table, 'rank': _rank,
        'sed_roundtrip': _sed_roundtrip, 'isub': _isub, 'ndist': _ndist, 'nearest': _nearest}
 
 HEADER = '''From Coq Require Import QArith ZArith List.
 Import ListNotations.
-From SedV Require Import Xnum Keep Keep0 PLin FilterOut FitModel Grid Table FTable TableProofs ConvolveM MonoM SedIO SedIOM.
+From SedV Require Import Xnum Keep Keep0 PLin FilterOut FitModel Grid Table FTable TableProofs ConvolveM MonoM SedIO SedIOM Fmt.
 Definition qz (x : Q) : Z * Z := let y := Qred x in (Qnum y, Zpos (Qden y)).
 '''
 
